@@ -98,6 +98,8 @@ def write_nt(quads, style):
         if g is not None:
             raise ValueError("nt: named graph")
         lines.append("%s %s %s ." % (nt_term(s), nt_term(p), nt_term(o)))
+    if style.get("comment"):        # N-Triples allows comment lines and blank lines between the statements
+        lines = ["# c12", ""] + lines[:1] + ["", "   # c12"] + lines[1:]
     sep = "\n" if not style.get("crlf") else "\r\n"
     return sep.join(lines) + sep
 
@@ -108,7 +110,7 @@ def write_nquads(quads, style):
         tail = "" if g is None else " " + nt_term(g)
         lines.append("%s %s %s%s ." % (nt_term(s), nt_term(p), nt_term(o), tail))
     if style.get("comment"):
-        lines.insert(0, "# c12")
+        lines = ["# c12", ""] + lines[:1] + ["", "   # c12"] + lines[1:]
     return "\n".join(lines) + "\n"
 
 
